@@ -314,8 +314,13 @@ def main(argv):
             b = base.get(v.func)
             if not b or v.name in reported or v.name not in b['proved']: continue
             root = next((i['function'] for i in infos if i['function'].split(':')[1] in v.name), v.func)
-            changed = any(f in base and h and base[f].get('sha256') and base[f]['sha256'] != h for f, h in sha_now.items())
-            if not changed: continue          # same source text as the baseline: solver instability, not a code change
+            # verification is modular: an obligation of function F depends on the source of F and of the helpers inlined into F (and on
+            # contracts); a change elsewhere cannot have broken it, so with F's own text unchanged this is solver instability, not a code change
+            own = next((i for i in infos if i['function'] == v.func), None)
+            hs = dict(own.get('inlined', {})) if own else {}
+            if own: hs[v.func] = own['sha256']
+            changed = any(f in base and h and base[f].get('sha256') and base[f]['sha256'] != h for f, h in hs.items())
+            if not changed: continue
             if match_known(prop, v.name): known.append((v.name, match_known(prop, v.name))); continue
             rp = os.path.join(VERIF, 'replays', prop, hashlib.sha1(v.name.encode()).hexdigest()[:12] + '.json')
             rec = dict(property=prop, obligation=v.name, confirmed=False,
